@@ -104,9 +104,11 @@ pub fn worker_main(p: &Profile, tier: Tier, seed: u64, wix: u64, nw: u64, secs: 
         log_xor: 0,
     };
     let stdout = std::io::stdout();
+    let base_offset = wix - wix % nw;
     let mut index = wix;
     let mut violations_reported = 0;
-    while start.elapsed() < Duration::from_secs(secs) && st.runs < max_runs {
+    // `max_runs` is the total number of run indices of the batch; this worker takes every nw-th
+    while start.elapsed() < Duration::from_secs(secs) && index < max_runs.saturating_add(base_offset) {
         // announce the run about to start, so the parent can name the culprit if the process dies
         if st.runs % 64 == 0 {
             let mut o = stdout.lock();
@@ -552,12 +554,22 @@ pub fn check_main(profiles: &[Profile], id: &str, tier: Tier) -> i32 {
     }
     // 3. workers
     let nw = std::thread::available_parallelism().map(|n| n.get()).unwrap_or(4).min(16) as u64;
-    let secs = std::env::var("VERIF_SECS").ok().and_then(|s| s.parse().ok()).unwrap_or(if tier == Tier::Quick {
-        p.quick_secs
+    // wall-clock cap (a safety net, not the budget): VERIF_SECS overrides it and then *is* the budget
+    let secs_env: Option<u64> = std::env::var("VERIF_SECS").ok().and_then(|s| s.parse().ok());
+    let secs = secs_env.unwrap_or(if tier == Tier::Quick {
+        150
     } else {
-        p.thorough_secs
+        2400
     });
-    let max_runs: u64 = std::env::var("VERIF_MAX_RUNS").ok().and_then(|s| s.parse().ok()).unwrap_or(u64::MAX / 64);
+    // the budget: a fixed number of runs (indices 0..total, strided over the workers)
+    let total_runs: u64 = std::env::var("VERIF_RUNS").ok().and_then(|s| s.parse().ok()).unwrap_or(if secs_env.is_some() {
+        u64::MAX / 4
+    } else if tier == Tier::Quick {
+        p.quick_runs
+    } else {
+        p.thorough_runs
+    });
+    let max_runs = total_runs;
     let mut agg = Agg {
         runs: 0,
         deliveries: 0,
@@ -576,10 +588,10 @@ pub fn check_main(profiles: &[Profile], id: &str, tier: Tier) -> i32 {
     // stopping rule: required probes drive extra batches (never the exit code)
     let missing = |agg: &Agg| -> Vec<&'static str> { p.required.iter().filter(|r| agg.probes.get(**r).copied().unwrap_or(0) == 0).cloned().collect() };
     let mut extra = 0;
-    while !missing(&agg).is_empty() && extra < 2 && agg.violations.is_empty() && max_runs > 1_000_000 {
+    while !missing(&agg).is_empty() && extra < 2 && agg.violations.is_empty() && secs_env.is_none() {
         extra += 1;
         println!("note: required probes still at zero {:?}; extra batch {}", missing(&agg), extra);
-        spawn_batch(p, tier, seed, (secs / 2).max(5), max_runs, nw, nw * extra as u64 * 1_000_003, &mut agg);
+        spawn_batch(p, tier, seed, secs, total_runs / 2, nw, nw * extra as u64 * 1_000_003, &mut agg);
     }
     // 4. fixed sweep (thorough tier)
     let mut sweep_cases = 0u64;
@@ -760,6 +772,7 @@ pub fn check_main(profiles: &[Profile], id: &str, tier: Tier) -> i32 {
         .set("real_components", J::Arr(p.real.iter().map(|s| J::s(s)).collect()))
         .set("stub_components", J::Arr(p.stubs.iter().map(|s| J::s(s)).collect()))
         .set("miri_tier", miri_note.clone())
+        .set("budget", J::s(&if secs_env.is_some() { format!("wall-clock {} s (VERIF_SECS)", secs) } else { format!("{} runs (fixed; wall-clock cap {} s)", total_runs, secs) }))
         .set("workers", J::i(nw as i128))
         .set("event_log_digest", J::s(&format!("{:016x}", agg.log_xor)));
     let ev = J::obj()
